@@ -344,8 +344,9 @@ void XmppSocket::processData(const QString &data)
         Q_EMIT stanzaReceived(stanza);
     }
 
-    // process stream end
-    if (hasStreamClose) {
+    // process stream end (a handler of the elements above may already have closed this connection,
+    // e.g. to follow a redirect: the closing tag belongs to the old connection then)
+    if (hasStreamClose && isConnected()) {
         Q_EMIT streamClosed();
     }
 }
